@@ -481,7 +481,8 @@ func c20Do(s *c20Shared, op, step, gid int) error {
 				if to > int64(len(want)) {
 					to = int64(len(want))
 				}
-				sn, err := selector.Slice{From: from, To: to}.Slice(s.bytesN[k])
+				sl := selector.Slice{From: from, To: to}
+				sn, err := sl.Slice(s.bytesN[k])
 				if err != nil || sn == nil {
 					return fmt.Errorf("shared bytes node %d: Slice[%d,%d) = %v, %v", k, from, to, sn, err)
 				}
